@@ -997,6 +997,48 @@ def c14_2g(ck, prog):
     r.note('%d fallible functions that take references examined' % n)
 
 
+def c14_9(ck, prog):
+    r = ck.rule('C14.9', 'a preallocated hash-table entry kept for undoing an operation is forgotten only after it was '
+                'handed to the table (or to the function that frees it): every `->hash_entry = NULL` lies behind a call '
+                'that took that entry', 'PAIR',
+                breaks='cancelling a transaction (out of memory later in the same request) while the name still has '
+                'other owners drops the unused entry -- a leak per cancelled request; the accompanying assertion '
+                '`hash_entry == NULL` aborts the bus in builds with assertions', floor=2)
+    fields = set()
+    for rn, rec in prog.records.items():
+        for f in rec['fields']:
+            if 'DBusPreallocatedHash' in (f.get('t') or ''):
+                fields.add((rn, f['name']))
+    if not fields:
+        raise AnalysisBroken('no record keeps a preallocated hash entry')
+    n = 0
+    for fn in lib.prod_funcs(prog, {'bus/services.c', 'bus/activation.c'}):
+        sites = [ev for b, i, ev in fn.events() for lhs, how, rhs in written_lvalues(ev)
+                 if is_member(lhs) and (lhs.get('rec'), lhs.get('field')) in fields and how == '=' and is_int(rhs, 0)]
+        if not sites:
+            continue
+        n += len(sites)
+
+        def on_event(user, ev, ctx):
+            if ev['ev'] == 'call':
+                for a in ev['e']['args']:
+                    if is_member(a) and (a.get('rec'), a.get('field')) in fields:
+                        return True
+            for lhs, how, rhs in written_lvalues(ev):
+                if is_member(lhs) and (lhs.get('rec'), lhs.get('field')) in fields and how == '=' and is_int(rhs, 0):
+                    if not user:
+                        ctx.report('%s is reset to NULL on a path on which the entry was neither inserted nor freed'
+                                   % estr(lhs), ev['line'], key=('dropped', ev['line']))
+            return user
+        ex = Explorer(fn, init=False, on_event=on_event, track=None, cap=200000).run()
+        if ex.reports:
+            r.from_reports(ex.reports, keyfn=lambda k, rep, fn=fn: '%s:entry-dropped' % fn.name)
+        else:
+            r.ok('%s:entry-consumed-before-reset' % fn.name)
+    if n < 2:
+        raise AnalysisBroken('resets of preallocated entries not found (%d)' % n)
+
+
 def c14_7(ck, prog):
     from rules.C09 import c09_2
     r7 = ck.rule('C14.7', 'a pending-reply slot is consumed only under an undo hook registered before the slot '
@@ -1032,6 +1074,7 @@ def run(ck):
         c14_2e(ck, prog)
         c14_2f(ck, prog)
         c14_2g(ck, prog)
+        c14_9(ck, prog)
         c14_7(ck, prog)
         from rules.C12 import c12_6
         c12_6(ck, prog, rid='C14.8')
